@@ -30,7 +30,7 @@ MUTATIONS = {  # seeded defect -> invariants of which at least one must be repor
     "no_disconnect": {"NotifiedImpliesRequested", "DecidedOutcome", "OutcomeMatches"},
 }
 TIERS = {
-    "quick": dict(cfgs=["ProtocolHash_quick.cfg"], tlc_timeout=80, hs_sample=600, threads=8,
+    "quick": dict(cfgs=["ProtocolHash_quick.cfg", "ProtocolHash_quick3.cfg"], tlc_timeout=80, hs_sample=600, threads=8,
                   replay_timeout=60),
     "thorough": dict(cfgs=["ProtocolHash_thorough.cfg", "ProtocolHash_wide.cfg"], tlc_timeout=900,
                      hs_sample=6000, threads=8, replay_timeout=600),
